@@ -86,9 +86,12 @@ enum Patcher {
     Stream(Option<usize>),
     /// `ZbsdiffPatcher::apply_patch(control_block, diff, extra)` from `ZbsDiff`'s accessors
     StreamParts,
+    /// as `Stream(None)`, the old content behind a reader that hands out at most n bytes per
+    /// `read` call (what `Read` allows and segmented or network-backed stores do)
+    StreamShort(usize),
 }
 
-const PATCHERS: [Patcher; 9] = [
+const PATCHERS: [Patcher; 11] = [
     Patcher::Memory,
     Patcher::Parsed,
     Patcher::Stream(None),
@@ -98,6 +101,8 @@ const PATCHERS: [Patcher; 9] = [
     Patcher::Stream(Some(8192)),
     Patcher::Stream(Some(65_536)),
     Patcher::StreamParts,
+    Patcher::StreamShort(1),
+    Patcher::StreamShort(509),
 ];
 
 impl Patcher {
@@ -107,6 +112,7 @@ impl Patcher {
             Patcher::Parsed => "zbsdiff-apply",
             Patcher::Stream(_) => "streaming",
             Patcher::StreamParts => "streaming-parts",
+            Patcher::StreamShort(_) => "streaming-short-reads",
         }
     }
 
@@ -114,8 +120,27 @@ impl Patcher {
     fn site(self) -> &'static str {
         match self {
             Patcher::Memory | Patcher::Parsed => "in-memory-patcher",
-            Patcher::Stream(_) | Patcher::StreamParts => "streaming-patcher",
+            Patcher::Stream(_) | Patcher::StreamParts | Patcher::StreamShort(_) => "streaming-patcher",
         }
+    }
+}
+
+/// A reader that returns at most `max` bytes per `read` call.
+struct ShortReads<R> {
+    inner: R,
+    max: usize,
+}
+
+impl<R: std::io::Read> std::io::Read for ShortReads<R> {
+    fn read(&mut self, buf: &mut [u8]) -> std::io::Result<usize> {
+        let n = buf.len().min(self.max);
+        self.inner.read(&mut buf[..n])
+    }
+}
+
+impl<R: std::io::Seek> std::io::Seek for ShortReads<R> {
+    fn seek(&mut self, pos: std::io::SeekFrom) -> std::io::Result<u64> {
+        self.inner.seek(pos)
     }
 }
 
@@ -130,6 +155,10 @@ fn run_patcher(p: Patcher, old: &[u8], patch: &[u8]) -> Result<Vec<u8>, String> 
                 sp = sp.with_buffer_size(b);
             }
             sp.apply_patch_from_data(patch).map_err(|e| e.to_string())
+        }
+        Patcher::StreamShort(n) => {
+            let h = ZbsdiffHeader::parse_from_patch(patch).map_err(|e| e.to_string())?;
+            ZbsdiffPatcher::new(ShortReads { inner: Cursor::new(old), max: n.max(1) }, h.output_size as usize).apply_patch_from_data(patch).map_err(|e| e.to_string())
         }
         Patcher::StreamParts => {
             let z = ZbsDiff::parse(patch).map_err(|e| e.to_string())?;
@@ -321,6 +350,11 @@ fn symbols(alphabet: u16, seed: u64, len: usize) -> Vec<u8> {
     if alphabet >= 256 {
         return r.bytes(len);
     }
+    // 1000 + n: the n lowest byte values, 0x00 included (zero padding, binary records)
+    if alphabet >= 1000 {
+        let a = u64::from(alphabet - 1000).clamp(1, 256);
+        return (0..len).map(|_| r.below(a) as u8).collect();
+    }
     let a = alphabet.max(1) as u64;
     (0..len)
         .map(|_| {
@@ -443,7 +477,7 @@ fn source(big: bool) -> impl Strategy<Value = Source> {
     };
     (
         len,
-        prop_oneof![3 => Just(256u16), 3 => Just(2u16), 1 => Just(1u16), 1 => Just(3u16), 1 => Just(4u16), 1 => Just(16u16)],
+        prop_oneof![3 => Just(256u16), 3 => Just(2u16), 1 => Just(1u16), 1 => Just(3u16), 1 => Just(4u16), 1 => Just(16u16), 2 => Just(1002u16), 1 => Just(1003u16), 1 => Just(1001u16)],
         prop_oneof![6 => Just(0usize), 1 => 1usize..=8, 1 => 9usize..=300],
         any::<u64>(),
     )
@@ -465,13 +499,31 @@ struct AbCase {
     block: Option<usize>,
 }
 
-fn ab_strings(max: usize) -> Vec<String> {
+#[derive(Debug, Clone, Serialize, Deserialize)]
+struct GrownCase {
+    n: usize,
+    k: usize,
+    tail: u8,
+    alphabet: u16,
+    seed: u64,
+    builder: Builder,
+    block: Option<usize>,
+}
+
+#[derive(Debug, Clone, Serialize, Deserialize)]
+struct BigCase {
+    new_len: usize,
+    builder: Builder,
+    seed: u64,
+}
+
+fn ab_strings(max: usize, letters: [char; 2]) -> Vec<String> {
     let mut v = vec![String::new()];
     let mut from = 0;
     for _ in 0..max {
         let to = v.len();
         for i in from..to {
-            for c in ['a', 'b'] {
+            for c in letters {
                 let mut s = v[i].clone();
                 s.push(c);
                 v.push(s);
@@ -830,7 +882,7 @@ fn main() {
             "exhaustive-ab",
             scope,
             move || {
-                let s = ab_strings(n);
+                let s = ab_strings(n, ['a', 'b']);
                 let s2 = s.clone();
                 let cfg = configs();
                 Box::new(s.into_iter().flat_map(move |old| {
@@ -850,11 +902,110 @@ fn main() {
         .shards(16),
     );
 
+    // 1b. the same over {0x00, 'a'}: bytes past the end of the old content count as zero in a
+    // bsdiff patch, so a zero byte in the new content is the one value that can "match" there
+    let n0 = tier.pick(5usize, 7usize);
+    ck.run(
+        Section::enumerate(
+            "exhaustive-0a",
+            format!("all (old,new) in ({{0x00,a}}^<={n0})^2 = {} pairs x {} builder configurations, reference bspatch and {} patcher variants", ((1usize << (n0 + 1)) - 1).pow(2), configs().len(), PATCHERS.len()),
+            move || {
+                let s = ab_strings(n0, ['\0', 'a']);
+                let s2 = s.clone();
+                let cfg = configs();
+                Box::new(s.into_iter().flat_map(move |old| {
+                    let cfg = cfg.clone();
+                    s2.clone().into_iter().flat_map(move |new| {
+                        let old = old.clone();
+                        cfg.clone().into_iter().map(move |(builder, block)| AbCase { old: old.clone(), new: new.clone(), builder, block })
+                    })
+                }))
+            },
+            |c: &AbCase| {
+                let v = check_generated(c.old.as_bytes(), c.new.as_bytes(), c.builder, c.block);
+                let nt = v.fail.is_none() && !v.classes.contains(&"builder-refused") && c.old != c.new && !c.old.is_empty() && !c.new.is_empty();
+                v.nontrivial(nt)
+            },
+        )
+        .shards(16),
+    );
+
+    // 1c. old content that ends where a block of the chunked builder ends, new content that goes on
+    // with zeros / with data (a file grown by padding or by an appended record), block sizes around it
+    ck.run(
+        Section::enumerate(
+            "grown-files",
+            "old = n bytes (n in {1,4,8,64,255,256,257,1024,4096,8192}), new = old + t with t = k zero bytes / a zero byte then data / data then zeros (k in {1,3,4,8,300}), alphabets {256, {0,1}}, every builder configuration".to_string(),
+            move || {
+                let cfg = configs();
+                let mut v = Vec::new();
+                for n in [1usize, 4, 8, 64, 255, 256, 257, 1024, 4096, 8192] {
+                    for k in [1usize, 3, 4, 8, 300] {
+                        for tail in 0u8..3 {
+                            for alphabet in [256u16, 1002] {
+                                for &(builder, block) in &cfg {
+                                    v.push(GrownCase { n, k, tail, alphabet, seed: seed ^ (n as u64) << 20 ^ (k as u64) << 8 ^ u64::from(tail), builder, block });
+                                }
+                            }
+                        }
+                    }
+                }
+                Box::new(v.into_iter())
+            },
+            |c: &GrownCase| {
+                let old = symbols(c.alphabet, c.seed, c.n);
+                let mut new = old.clone();
+                match c.tail {
+                    0 => new.extend(std::iter::repeat_n(0u8, c.k)),
+                    1 => {
+                        new.push(0);
+                        new.extend(symbols(256, c.seed ^ 9, c.k));
+                    }
+                    _ => {
+                        new.extend(symbols(256, c.seed ^ 9, c.k));
+                        new.extend(std::iter::repeat_n(0u8, c.k));
+                    }
+                }
+                let v = check_generated(&old, &new, c.builder, c.block);
+                let ok = v.fail.is_none() && !v.classes.contains(&"builder-refused");
+                v.nontrivial(ok)
+            },
+        )
+        .shards(16),
+    );
+
+    // 1d. sizes around the 10,000,000-byte operation limit of the builders
+    ck.run(
+        Section::enumerate(
+            "ten-million",
+            "old = 100 bytes, new = 9,999,999 / 10,000,000 / 10,000,001 bytes of low-entropy content, simple and chunked builder (a refusal is allowed, a patch that does not apply is not)".to_string(),
+            move || {
+                let mut v = Vec::new();
+                for new_len in [9_999_999usize, 10_000_000, 10_000_001] {
+                    for builder in [Builder::Simple, Builder::Chunked] {
+                        v.push(BigCase { new_len, builder, seed: seed ^ new_len as u64 });
+                    }
+                }
+                Box::new(v.into_iter())
+            },
+            |c: &BigCase| {
+                let old = symbols(4, c.seed, 100);
+                // compressible: bzip2 of 10 MB of noise would dominate the run
+                let unit = symbols(4, c.seed ^ 5, 4093);
+                let new: Vec<u8> = (0..c.new_len).map(|i| unit[i % unit.len()]).collect();
+                let v = check_generated(&old, &new, c.builder, None);
+                let ok = v.fail.is_none() && !v.classes.contains(&"builder-refused");
+                v.nontrivial(ok)
+            },
+        )
+        .shards(6),
+    );
+
     // 2. structured pairs around the thresholds of the builders
     const PRE: [usize; 6] = [0, 3, 4, 5, 9, 300];
     const MID: [usize; 8] = [0, 1, 4, 255, 256, 257, 512, 600];
     const SUF: [usize; 6] = [0, 3, 4, 5, 9, 300];
-    const ALPHA: [u16; 3] = [2, 4, 256];
+    const ALPHA: [u16; 4] = [2, 4, 256, 1002];
     ck.run(
         Section::enumerate(
             "boundary-grid",
